@@ -2,7 +2,7 @@ SPECIFICATION Spec
 CONSTANTS
   Classes = {"OwnBare", "PreviousOwnBare", "OwnFullOther", "Contact", "Empty"}
   Wrappers = {"none", "sent", "received", "both"}
-  Inners = {"chatIn", "spoof"}
+  Inners = {"chatIn", "spoof", "private", "delay"}
   Gens = {"v1", "v2"}
   JidCfgs = {"plain", "nores", "mixed"}
   Hows = {"setJid", "setUserDomain", "assign", "copySetJid"}
